@@ -173,6 +173,25 @@ def t2_programs():
     add("hflex1", take(9) + ["hflex1"])
     add("flex1_dx", [40, 3, 30, 2, 20, 1, 25, -2, 35, 4, 17, "flex1"])
     add("flex1_dy", [3, 40, 2, 30, 1, 20, -2, 25, 4, 35, 17, "flex1"])
+    # every sign combination of (dominant sum, minor sum), and the |dx| == |dy| tie
+    add("flex1_dx_minorneg", [40, -3, 30, -2, 20, -1, 25, 2, 35, -14, 17, "flex1"])
+    add("flex1_dx_domneg", [-40, 3, -30, 2, -20, 1, -25, -2, -35, 4, -17, "flex1"])
+    add("flex1_dx_bothneg", [-40, -3, -30, -2, -20, -1, -25, 2, -35, -4, -17, "flex1"])
+    add("flex1_dy_minorneg", [-3, 40, -2, 30, -1, 20, 2, 25, -14, 35, 17, "flex1"])
+    add("flex1_dy_domneg", [3, -40, 2, -30, 1, -20, -2, -25, 4, -35, -17, "flex1"])
+    add("flex1_dy_bothneg", [-3, -40, -2, -30, -1, -20, 2, -25, -4, -35, -17, "flex1"])
+    add("flex1_tie", [10, 20, 20, 10, 30, 30, 10, 5, 5, 10, 17, "flex1"])
+    add("flex1_tie_neg", [10, -20, 20, -10, 30, -30, 10, -5, 5, -10, 17, "flex1"])
+    add("hflex_neg", [-x for x in take(7)] + ["hflex"])
+    add("hflex1_neg", [-x for x in take(9)] + ["hflex1"])
+    add("flex_neg", [-x for x in take(12)] + [50, "flex"])
+    # all-negated operands for every multi-form operator (sign handling of each argument)
+    for n in (4, 5, 8, 9, 12, 13):
+        add("hvcurveto%dneg" % n, [-x for x in take(n, 1)] + ["hvcurveto"])
+        add("vhcurveto%dneg" % n, [-x for x in take(n, 4)] + ["vhcurveto"])
+    for n in (4, 5, 8, 9):
+        add("hhcurveto%dneg" % n, [-x for x in take(n, 6)] + ["hhcurveto"])
+        add("vvcurveto%dneg" % n, [-x for x in take(n, 7)] + ["vvcurveto"])
     progs["hmoveto"] = [70, "hmoveto", 30, 40, -30, "hlineto", -25, "hmoveto", 10, 20, "rlineto", "endchar"]
     progs["vmoveto"] = [70, "vmoveto", 30, 40, -30, "vlineto", 45, "vmoveto", 10, 20, 5, 5, "rlineto", "endchar"]
     progs["twocontours"] = [10, 10, "rmoveto", 100, 0, 0, 100, -100, 0, "rlineto", 200, 50, "rmoveto", 10, 90, 40, 20, 30, -60, "rrcurveto", "endchar"]
